@@ -66,11 +66,8 @@ def shape(rng):
 def gen_cases(rng, quick):
     n = (lambda q, t: q if quick else t)
     cases = []
-    for _ in range(n(30, 300)):
-        r, c = shape(rng)
-        px, s1 = gen_frame(rng, r, c, fractional=rng.random() < 0.4)
-        ch, s2 = gen_frame(rng, r, c, fractional=rng.random() < 0.4)
-        cases.append({"kind": "collect", "rows": r, "cols": c, "pixel": px, "charge": ch, "styles": [s1, s2]})
+    for _ in range(n(50, 500)):
+        cases.append(gen_collect(rng))
     for _ in range(n(40, 400)):
         r, c = shape(rng)
         ph, s1 = gen_frame(rng, r, c, hi=rng.choice([10, 1000, 100000]), fractional=rng.random() < 0.4)
@@ -122,9 +119,75 @@ def gen_cases(rng, quick):
                       "sigma": [rng.choice([0.0, 1e-10, 1e-15, 1e-20, rng.uniform(0, 1e-9)]) for _ in range(ns)],
                       "ci": rng.random() < 0.3, "temperature": rng.choice([100.0, 200.0, 273.0, rng.uniform(50, 300)]),
                       "styles": [s1]})
+    for _ in range(n(24, 240)):
+        cases.append(gen_cdm_strong(rng))
     for _ in range(n(80, 800)):
         cases.append(gen_persist(rng))
     return cases
+
+
+def gen_collect(rng):
+    """generated charge as 2-D arrays and/or clusters (cosmic rays, charge deposition), one or several steps.
+    Multi-contribution / multi-step cases are integer valued (every float sum exact); a single array may be fractional."""
+    r, c = shape(rng)
+    nsteps = rng.choice([1, 1, 2, 3, 4])
+    single = nsteps == 1 and rng.random() < 0.5
+    px, s0 = gen_frame(rng, r, c, fractional=single and rng.random() < 0.5)
+    steps, tags = [], []
+    for k in range(nsteps):
+        mode = "array" if single else rng.choice(["array", "clusters", "clusters", "array+clusters", "clusters+array", "clusters+clusters", "nothing"])
+        gen = []
+        for part in ([] if mode == "nothing" else mode.split("+")):
+            if part == "array":
+                f, _ = gen_frame(rng, r, c, fractional=single and rng.random() < 0.6)
+                gen.append({"array": f})
+            else:
+                m = rng.choice([1, 2, 5, 12])
+                # several clusters may fall into one pixel; positions anywhere inside the pixel (dyadic offsets)
+                gen.append({"clusters": [[rng.randrange(r), rng.randrange(c), float(rng.choice([1, 10, 120, 3000, 10**5])),
+                                          rng.choice([0.25, 0.5, 0.75]), rng.choice([0.25, 0.5, 0.75])] for _ in range(m)]})
+        steps.append({"reset": k > 0 and rng.random() < 0.25, "gen": gen})
+        tags.append(mode)
+    return {"kind": "collect", "rows": r, "cols": c, "pixel": px, "steps": steps, "styles": [s0], "gen_modes": tags}
+
+
+def contribution_frame(case, g):
+    """one generated contribution as an exact rows×cols frame of Fractions (from the generated quantities only)"""
+    r, c = case["rows"], case["cols"]
+    if "array" in g:
+        return [[F(x) for x in row] for row in g["array"]]
+    f = [[F(0)] * c for _ in range(r)]
+    for i, j, num, _, _ in g["clusters"]:
+        f[i][j] += F(num)
+    return f
+
+
+def gen_cdm_strong(rng):
+    """strong trapping (capture fractions of the species summing above 1), a bright packet followed by dark
+    register elements: the regime where an accounting error shows up as created charge.  All parameters are
+    inside the ranges `cdm` itself checks."""
+    direction = rng.choice(["serial", "serial", "serial", "parallel"])
+    ns = rng.randrange(2, 6)
+    r, c = (rng.choice([1, 2, 4]), rng.choice([12, 20, 30])) if direction == "serial" else (rng.choice([12, 20, 30]), rng.choice([1, 2, 4]))
+    px = [[0.0] * c for _ in range(r)]
+    length = c if direction == "serial" else r
+    for line in range(r if direction == "serial" else c):
+        for _ in range(rng.choice([1, 1, 2, 3])):
+            pos = rng.randrange(1, max(2, length // 2))
+            v = float(rng.choice([100, 500, 2000, 10000]))
+            if direction == "serial":
+                px[line][pos] = v
+            else:
+                px[pos][line] = v
+    dens = rng.choice([1e12, 1e13, 1e14, 1e15])
+    return {"kind": "cdm", "rows": r, "cols": c, "pixel": px, "direction": direction,
+            "beta": rng.choice([0.3, 0.3, 0.0, 0.6, 1.0]), "vg": rng.choice([1e-10, 1e-10, 1.62e-10, 1e-9]),
+            "t": rng.choice([1e-3, 1e-3, 9.4722e-04, 1e-2]), "fwc": rng.choice([1e4, 1e4, 1e5]),
+            "tr": [2e-3 * (k + 1) * rng.choice([1, 1, 0.5, 5]) for k in range(ns)],
+            "nt": [dens * rng.choice([1, 1, 0.5, 3]) for _ in range(ns)],
+            "sigma": [rng.choice([1e-10, 1e-10, 1e-9, 3e-11]) for _ in range(ns)],
+            "ci": direction == "parallel" and rng.random() < 0.3, "temperature": rng.choice([200.0, 153.0, 273.0]),
+            "styles": ["strong-trapping"]}
 
 
 def gen_persist(rng):
@@ -187,11 +250,29 @@ def run_impl(case):
             from pyxel.models.charge_collection import simple_collection
 
             det = pyx.make_detector("CCD", r, c)
+            det.empty()  # like the pipeline before the first model
             det.pixel.array = np.array(case["pixel"], dtype=float)
-            det.charge.add_charge_array(np.array(case["charge"], dtype=float))
-            charge_seen = det.charge.array.copy()
-            simple_collection(det)
-            return {"pixel": det.pixel.array.tolist(), "charge_seen": charge_seen.tolist(), "charge_after": det.charge.array.tolist()}
+            vs, hs = det.geometry.pixel_vert_size, det.geometry.pixel_horz_size
+            states = []
+            for k, step in enumerate(case["steps"]):
+                if k > 0:
+                    det.empty(reset=step["reset"])  # what the pipeline does between readouts (destructive or not)
+                for g in step["gen"]:
+                    if "array" in g:
+                        det.charge.add_charge_array(np.array(g["array"], dtype=float))
+                    else:
+                        cl = g["clusters"]
+                        z = np.zeros(len(cl))
+                        det.charge.add_charge(
+                            particle_type="e", particles_per_cluster=np.array([x[2] for x in cl], dtype=float), init_energy=z,
+                            init_ver_position=np.array([(x[0] + x[3]) * vs for x in cl]),
+                            init_hor_position=np.array([(x[1] + x[4]) * hs for x in cl]),
+                            init_z_position=z, init_ver_velocity=z, init_hor_velocity=z, init_z_velocity=z)
+                # NOTHING reads detector.charge.array here: reading it refreshes the container and would mask a
+                # collection model that by-passes the property; the oracle uses the generated quantities only
+                simple_collection(det)
+                states.append(det.pixel.array.tolist())
+            return {"states": states}
         if kind == "qe":
             from pyxel.models.charge_generation import simple_conversion
 
@@ -303,7 +384,9 @@ def persist_species(case, i, j):
 def lean_request(case):
     kind = case["kind"]
     if kind == "collect":
-        return {"op": "collect", "pixel": [frac(x) for x in flat(case["pixel"])], "charge": [frac(x) for x in flat(case["charge"])]}
+        return {"op": "collect_seq", "pixel0": [frac(x) for x in flat(case["pixel"])],
+                "steps": [{"reset": bool(st["reset"]), "contributions": [[frac(x) for x in flat(contribution_frame(case, g))] for g in st["gen"]]}
+                          for st in case["steps"]]}
     if kind == "qe":
         return {"op": "qe", "qe": frac(case["qe"]), "photons": [frac(x) for x in flat(case["photons"])]}
     if kind == "fullwell":
@@ -341,9 +424,22 @@ def property_predicate(case, impl):
         return [("error", f"model function raised on an input in range: {impl.get('msg', impl['error'])}")]
     out = []
     if kind == "collect":
-        for a, p, q in zip(flat(impl["pixel"]), flat(case["pixel"]), flat(case["charge"])):
-            if F(a) != F(float(F(p) + F(q))):
-                out.append(("collection", f"pixel {p!r} + generated charge {q!r} gave {a!r}"))
+        # expected pixels from the GENERATED quantities only (never from detector.charge.array)
+        exp = [F(x) for x in flat(case["pixel"])]
+        for k, (step, got) in enumerate(zip(case["steps"], impl["states"])):
+            if k > 0 and step["reset"]:
+                exp = [F(0)] * len(exp)
+            gen = [F(0)] * len(exp)
+            for g in step["gen"]:
+                gen = [a + b for a, b in zip(gen, flat(contribution_frame(case, g)))]
+            exp = [F(float(a + b)) for a, b in zip(exp, gen)]
+            bad = [(i, a, e) for i, (a, e) in enumerate(zip(flat(got), exp)) if F(a) != e]
+            if bad:
+                i, a, e = bad[0]
+                kinds = "+".join("clusters" if "clusters" in g else "array" for g in step["gen"]) or "nothing"
+                out.append(("collection", f"step {k} (generated as {kinds}): pixel {divmod(i, case['cols'])} holds {a!r} e-, "
+                                          f"previous content + generated charge is {float(e)!r} e- "
+                                          f"(generated in this step: {float(sum(gen))!r} e- in total, pixels gained {float(sum(F(x) for x in flat(got)) - sum(exp) + sum(gen))!r})"))
                 break
     elif kind == "qe":
         for a, p in zip(flat(impl["charge"]), flat(case["photons"])):
@@ -417,8 +513,10 @@ def compare(case, impl, ans):
     if "error" in ans:
         return f"model refuses ({ans['error']}), implementation accepted"
     if kind == "collect":
-        m = [rat(x) for x in ans["model"]]
-        return None if all(F(a) == F(float(q)) for a, q in zip(flat(impl["pixel"]), m)) else "pixel ≠ rn(pixel + charge)"
+        for k, (got, mod) in enumerate(zip(impl["states"], ans["model"])):
+            if not all(F(a) == F(float(rat(q))) for a, q in zip(flat(got), mod)):
+                return f"step {k}: pixel ≠ rn(pixel + generated charge)"
+        return None
     if kind == "qe":
         if case["sampling"]:
             return None
@@ -470,7 +568,9 @@ def nontrivial(case):
     kind = case["kind"]
     if kind == "persist":
         return len(case["taus"]) >= 2 and any(any(x for x in flat(a)) for a in case["adds"])
-    key = {"collect": "charge", "qe": "photons"}.get(kind, "pixel")
+    if kind == "collect":
+        return any(g for st in case["steps"] for g in st["gen"])
+    key = {"qe": "photons"}.get(kind, "pixel")
     return any(x for x in flat(case[key]))
 
 
@@ -495,6 +595,10 @@ def body(ck: common.Check):
                 ck.count(f"steps={len(case['adds'])}")
             if kind == "cdm":
                 ck.count(f"cdm-{case['direction']}")
+            if kind == "collect":
+                ck.count(f"collect-steps={len(case['steps'])}")
+                for m in case["gen_modes"]:
+                    ck.count(f"collect-generated-as={m}")
             if "error" in impl:
                 ck.count(f"impl-error={impl['error']}")
             for clause, why in property_predicate(case, impl):
@@ -506,9 +610,11 @@ def body(ck: common.Check):
         shutil.rmtree(TMP, ignore_errors=True)
     ck.count("persist-dyadic-values-not-bit-exact", INEXACT[0])
     ck.rule = ("real CCD/CMOS detectors, frames 1×1…6×6: empty, saturated, single hot pixel, sparse, random, integer and fractional; "
-               "collection / QE (sampling on & off, argument or characteristics) / full well (values at capacity ±1 ulp, applied twice) / "
+               "collection of charge generated as arrays and/or clusters, 1–4 steps with and without reset, expected value from the generated "
+               "quantities only / QE (sampling on & off, argument or characteristics) / full well (values at capacity ±1 ulp, applied twice) / "
                "IPC (valid, guard-edge and invalid couplings; uniform and random frames) / CDM parallel & serial, 1–5 species, charge "
-               "injection, parameters over their documented ranges / persistence simple & map-based, 1–5 species, 1–5 steps with "
+               "injection, parameters over their documented ranges, plus a strong-trapping stream (densities 1e12–1e15, 2–5 species, "
+               "bright packets followed by dark register elements) / persistence simple & map-based, 1–5 species, 1–5 steps with "
                "signal drops, with and without capacities; dyadic stream compared exactly, general stream at 1e-9. "
                "non-trivial = non-zero input frame (persistence: ≥ 2 species and non-zero charge); distinct by canonical JSON")
     ck.assumptions = [
